@@ -76,6 +76,28 @@ use std::fmt::Debug;
 proof fn vf_canary_fixed_point_engine() ensures false {}
 } // mod fixed_point_engine
 
+pub mod fixed_point_engine_bwd {
+use super::*;
+use super::il::*;
+use super::fixed_point::*;
+use std::collections::HashMap;
+use std::fmt::Debug;
+//@ include units/C09/fp_engine_bwd.rs
+proof fn vf_canary_fixed_point_engine_bwd() ensures false {}
+} // mod fixed_point_engine_bwd
+
+// TEMPLATE CODE: a concrete model of the trait contract (satisfiability / vacuity guard) and a client
+pub mod fixed_point_model {
+use super::*;
+use super::il::*;
+use super::fixed_point::*;
+use super::fixed_point_engine::*;
+use std::collections::HashMap;
+use std::fmt::Debug;
+//@ include units/C09/fp_model.rs
+proof fn vf_canary_fixed_point_model() ensures false {}
+} // mod fixed_point_model
+
 proof fn vf_canary_root() ensures false {}
 
 } // verus!
